@@ -31,7 +31,8 @@ type Opts struct {
 //   - targets t<k> are renamed to the configured delivery URLs (everywhere);
 //   - a listing's order argument is dropped (the API lists newest first only);
 //   - FilterRace (a by-filter mutation paused between its two statements) becomes the plain mutation followed by the
-//     inner operations - the pause is a store-level hook, exercised at L0.
+//     inner operations - the pause is a store-level hook, exercised at L0; HandleRace likewise becomes its two calls in
+//     sequence, Reopen is dropped.
 func Adapt(ops []l0.Op) []l0.Op {
 	out := make([]l0.Op, 0, len(ops))
 	var one func(op l0.Op)
@@ -42,6 +43,16 @@ func Adapt(ops []l0.Op) []l0.Op {
 				one(in)
 			}
 			return
+		}
+		if op.Op == "HandleRace" {
+			// a second handle on the database is a store-level scenario (L0): here the two calls run one after the other
+			for _, in := range op.Inner {
+				one(in)
+			}
+			return
+		}
+		if op.Op == "Reopen" {
+			return // restart of the store: L0 (and L2 on the real binary)
 		}
 		if op.Env != nil {
 			e := *op.Env
